@@ -967,6 +967,15 @@ def _iter_find(m, st, callee, args, t):
     return h(m, st, args[0], args[1])
 
 
+@model("alloc::slice::<impl [T]>::concat", "alloc::str::<impl [S]>::concat", "alloc::slice::<impl [T]>::join")
+def _slice_concat(m, st, callee, args, t):
+    h = getattr(m.world, "concat", None)
+    v = deref_all(m, st, args[0])
+    if h is None or not (isinstance(v, Opq) and v.kind == "array") or callee["name"] != "concat":
+        return None
+    return h(m, st, list(v.data))
+
+
 # ---- internal iteration: interpreted as the loop around next() it stands for (pv/synth.py)
 ITER_KINDS = ("chars", "char_indices", "enumerate", "skip", "rev", "map", "lcur", "slice-iter")
 
@@ -1001,6 +1010,8 @@ def _string_from_iter(m, st, callee, args, t):
 def _collect(m, st, callee, args, t):
     fr = st.frames[-1]
     dty = fr.body.locals[t["dest"]["l"]]["ty"] if not t["dest"]["p"] else "?"
+    if dty.startswith("core::result::Result<alloc::string::String,") and _known_iter(m, st, args[0]):
+        return (INLINE, m.prog.bodies["pv::synth::result_string_from_results"], [args[0]], None)
     if dty == "alloc::string::String" and _known_iter(m, st, args[0]):
         return (INLINE, m.prog.bodies["pv::synth::string_from_chars"], [args[0]], None)
     return None
